@@ -220,6 +220,12 @@ def run(ctx):
         for lib in libs:
             excluded += sanitize(lib)
             jobs.append((len(jobs), lib, "python", None, False))
+    # dispatch-focused family: small libraries that always carry an overload set and a function with default arguments
+    for lib in smallgen.sample(xlib.library(lang="c++", nfunc=(1, 2), for_fortran=True, rows=pyfront.PY_ROWS,
+                                            results=pyfront.PY_RESULTS, types=pyfront.PY_TYPES, ovl_sigs=pyfront.PY_OVL_SIGS,
+                                            with_overloads=True, with_class=False), ctx.seed + 500, nlib):
+        excluded += sanitize(lib)
+        jobs.append((len(jobs), lib, "python", None, False))
     ctx.exclude_known("probe:reference-result-with-cleanup-label", excluded)
     for out in core.pool_map(_gen_job, jobs):
         ctx.case(n=out["ncalls"], label=out["labels"])
